@@ -598,7 +598,7 @@ def _iam_octets(dev, maxapdu, seg):
     return bytes([0x01, 0x00, 0x10, 0x00, 0xC4]) + oid.to_bytes(4, "big") + bytes([0x22, maxapdu >> 8, maxapdu & 0xFF, 0x91, seg, 0x22, 0x03, 0xE7])
 
 
-def server_script_case(wc, wg, wr, final_ack, resp_segs, req_segs=4, first_ack=True):
+def server_script_case(wc, wg, wr, final_ack, resp_segs, req_segs=4, first_ack=True, stray=False):
     """The real client stack (proposes window wc) sends a request of req_segs segments to a raw scripted server that
     grants min(wc, wg) per SegmentACK, then answers with a response of resp_segs segments proposing window wr; final_ack
     False: the SegmentACK for the last request segment is lost (the response follows at once).  The client may send at most
@@ -660,6 +660,14 @@ def server_script_case(wc, wg, wr, final_ack, resp_segs, req_segs=4, first_ack=T
         if [a["seq"] for a in again] != [0]:
             problems.append(("segments-sent-before-any-window-was-granted",
                              {"after_the_timeout": [a["seq"] for a in again], "client_proposed": proposed}))
+    if stray:
+        # a SegmentACK of the OTHER direction (server flag clear: it belongs to an exchange in which the client stack was
+        # the server) with the same invoke ID and a large window: it grants nothing for this request
+        send(bytes([0x01, 0x00, 0x40, invoke, 0x00, 0x08]))
+        got = [a for a in take() if a["type"] == 0 and a["seg"]]
+        if got:
+            problems.append(("request-segments-sent-on-a-segment-ack-of-the-other-direction",
+                             {"segments_sent": [a["seq"] for a in got], "stray_window": 8}))
     last, more, guard, bursts = 0, segs[0]["mor"], 0, []
     while more and guard < 50:
         guard += 1
@@ -727,6 +735,7 @@ def server_script_cases(tier):
                         yield (wc, wg, wr, final_ack, resp_segs, 4, True)
                         if resp_segs == 2 and final_ack:
                             yield (wc, wg, wr, final_ack, resp_segs, 4, False)
+                            yield (wc, wg, wr, final_ack, resp_segs, 4, True, True)
 
 
 def shard_server_script(item, deadline):
